@@ -46,32 +46,6 @@ theorem norm_idem_total (S : Schema) (hS : S.WF) (hm : noMandFs S.fields = true)
     S.encode (S.decode (S.encode (S.decode x))) = S.encode (S.decode x) := by
   rw [decode_encode S hS _ (decode_lands_canon_total S hS hm x)]
 
-/-! ## defect of today's code -/
-
-/-- `<query xmlns="urn:xmpp:mam:2" queryId="q1"/>` -/
-def mamQueryIdDoc : Node := .elem "query".toList [("xmlns".toList, Classes.nsMam), ("queryId".toList, "q1".toList)] []
-
-def attrCount (n : Node) : Nat := n.attrs.length
-
-/-- **Defect (recorded finding `C02:not-fixpoint:MamQueryIq`).**  For today's `QXmppMamQueryIq` one parse/serialize
-pass is NOT a fixpoint: `<query … queryId="q1"/>` serializes with `queryid="q1"` (two attributes), and that output
-serializes without it (one attribute).  The repaired schema `Classes.MamQueryIq` is covered by `norm_idem`. -/
-theorem C02_defect_mam_queryid_not_fixpoint :
-    ¬ (∀ x y, Classes.MamQueryIqCode.norm x = some y → Classes.MamQueryIqCode.norm y = some y) := by
-  intro h
-  have h1 : (Classes.MamQueryIqCode.norm mamQueryIdDoc).map attrCount = some 2 := by decide +kernel
-  have h2 : ((Classes.MamQueryIqCode.norm mamQueryIdDoc).bind Classes.MamQueryIqCode.norm).map attrCount = some 1 := by
-    decide +kernel
-  cases hx : Classes.MamQueryIqCode.norm mamQueryIdDoc with
-  | none => rw [hx] at h1; simp at h1
-  | some y =>
-    have h3 := h mamQueryIdDoc y hx
-    rw [hx] at h1 h2
-    simp only [Option.bind_some, h3, Option.map_some, Option.some.injEq] at h1 h2
-    omega
-
-example : Classes.MamQueryIq.WF := wf_MamQueryIq
-
 /-- non-vacuity: a foreign element is a legitimate input of `norm_idem_total` -/
 example : noMandFs Classes.Bind2Request.fields = true := by decide
 
